@@ -270,7 +270,7 @@ func checkC08(c *Ctx, r *Report) {
 						if !holds && resolveVal(base) != ssa.Value(clientGlobal) {
 							return
 						}
-						switch fv.Name() {
+						switch fname(fv) {
 						case "CheckRedirect":
 							if fn := closureFn(st.Val); fn != nil {
 								all, nret := true, 0
@@ -282,7 +282,7 @@ func checkC08(c *Ctx, r *Report) {
 										if isU {
 											gl, isG = u.X.(*ssa.Global)
 										}
-										if !isU || !isG || gl.(*ssa.Global).Name() != "ErrUseLastResponse" {
+										if !isU || !isG || gname(gl.(*ssa.Global)) != "ErrUseLastResponse" {
 											all = false
 										}
 									}
@@ -308,7 +308,7 @@ func checkC08(c *Ctx, r *Report) {
 						return
 					}
 					fv, base, is := fieldOf(st.Addr)
-					if !is || fv.Name() != "DisableCompression" || structName(base.Type()) != "net/http.Transport" {
+					if !is || fname(fv) != "DisableCompression" || structName(base.Type()) != "net/http.Transport" {
 						return
 					}
 					if b, isC := constBool(st.Val); !isC || !b {
@@ -317,7 +317,7 @@ func checkC08(c *Ctx, r *Report) {
 					// on the default transport (used when the client's Transport is nil) or on the client's own
 					onDefault := derivesFrom(base, func(v ssa.Value) bool {
 						gl, ok := v.(*ssa.Global)
-						return ok && gl.Name() == "DefaultTransport"
+						return ok && gname(gl) == "DefaultTransport"
 					})
 					if (onDefault && !transportSet) || (!onDefault && transportSet) {
 						noGzip = true
@@ -526,7 +526,7 @@ func checkC08(c *Ctx, r *Report) {
 					fv, _, _ = fieldOf(fa)
 				}
 			}
-			if fv == nil || fv.Name() != "Header" {
+			if fv == nil || fname(fv) != "Header" {
 				return false
 			}
 			// the Header field of the per-entry object stored in the cache (cachedRequestInfo), not of http.Request/Response
@@ -581,7 +581,7 @@ func checkC08(c *Ctx, r *Report) {
 				}
 				root, p := ctxFieldPath(st.Val, hc.ctx)
 				if root == ssa.Value(f.Params[0]) {
-					got[fv.Name()] = strings.Join(p, ".")
+					got[fname(fv)] = strings.Join(p, ".")
 				}
 			})
 		}
@@ -604,7 +604,7 @@ func checkC08(c *Ctx, r *Report) {
 				}
 				nReqStores++
 				allowed := map[string]bool{"URL": true, "RequestURI": true, "Close": true}
-				r.Check(allowed[fv.Name()], "C08.R4", fnKey(f)+" assigns Request."+fv.Name(), c.InstrPos(x), "transport bookkeeping field", "the client's "+fv.Name()+" is overwritten before the request is forwarded")
+				r.Check(allowed[fname(fv)], "C08.R4", fnKey(f)+" assigns Request."+fname(fv), c.InstrPos(x), "transport bookkeeping field", "the client's "+fname(fv)+" is overwritten before the request is forwarded")
 			case *ssa.Call:
 				n := calleeName(x)
 				if n != "(net/http.Header).Set" && n != "(net/http.Header).Add" {
@@ -642,7 +642,7 @@ func checkC08(c *Ctx, r *Report) {
 				return
 			}
 			fv, _, is := fieldOf(st.Addr)
-			if !is || fv.Name() != "UpstreamStatus" {
+			if !is || fname(fv) != "UpstreamStatus" {
 				return
 			}
 			_, p := fieldPath(st.Val)
@@ -731,7 +731,7 @@ func checkC08(c *Ctx, r *Report) {
 				return
 			}
 			fv, base, is := fieldOf(st.Addr)
-			if is && fv.Name() == "Header" && strings.HasSuffix(structName(base.Type()), "cachedRequestInfo") {
+			if is && fname(fv) == "Header" && strings.HasSuffix(structName(base.Type()), "cachedRequestInfo") {
 				_, p := fieldPath(st.Val)
 				if strings.Join(p, ".") == "Header" {
 					ok = true
@@ -884,7 +884,7 @@ func checkC10(c *Ctx, r *Report) {
 							return false
 						}
 						gl, ok := u.X.(*ssa.Global)
-						return ok && gl.Name() == "ErrBodyReadAfterClose"
+						return ok && gname(gl) == "ErrBodyReadAfterClose"
 					}
 					switch x := v.(type) {
 					case *ssa.Call:
@@ -977,7 +977,7 @@ func checkC10(c *Ctx, r *Report) {
 					for _, hh := range pkgGroup(li, h) {
 						eachInstr(hh, func(i2 ssa.Instruction) {
 							if st, ok := i2.(*ssa.Store); ok {
-								if fv, _, is := fieldOf(st.Addr); is && fv.Name() == "Request" {
+								if fv, _, is := fieldOf(st.Addr); is && fname(fv) == "Request" {
 									told = true
 								}
 							}
@@ -1012,7 +1012,7 @@ func checkC10(c *Ctx, r *Report) {
 							return false
 						}
 						if u, ok := call.Call.Args[1].(*ssa.UnOp); ok {
-							if gl, ok := u.X.(*ssa.Global); ok && (gl.Name() == "EOF" || gl.Name() == "ErrUnexpectedEOF") {
+							if gl, ok := u.X.(*ssa.Global); ok && (gname(gl) == "EOF" || gname(gl) == "ErrUnexpectedEOF") {
 								return (si == 0) == positive
 							}
 						}
@@ -1048,7 +1048,7 @@ func checkC10(c *Ctx, r *Report) {
 					continue
 				}
 				gl, ok := u.X.(*ssa.Global)
-				if !ok || gl.Name() != "ErrResponseIncomplete" {
+				if !ok || gname(gl) != "ErrResponseIncomplete" {
 					continue
 				}
 				trueIdx := 0
@@ -1104,7 +1104,7 @@ func checkC10(c *Ctx, r *Report) {
 							return false
 						}
 						gl, ok := u.X.(*ssa.Global)
-						return ok && gl.Name() == "ErrResponseIncomplete"
+						return ok && gname(gl) == "ErrResponseIncomplete"
 					})
 					if !carries {
 						okS = false
@@ -1130,7 +1130,7 @@ func checkC10(c *Ctx, r *Report) {
 				return
 			}
 			fv, _, is := fieldOf(st.Addr)
-			if !is || fv.Name() != "TransferEncoding" {
+			if !is || fname(fv) != "TransferEncoding" {
 				return
 			}
 			isChunked := derivesFrom(st.Val, func(v ssa.Value) bool {
